@@ -134,6 +134,7 @@ pub fn session<E: SimEnv>(cfg: &SessionCfg, cs: &mut EnvCensus, out: &mut Sessio
     let mut trading = !rng.chance(if on(E_FLAG) { 0.3 } else { 0.1 });
     let mut env = E::create(t0, &gen.ticks, step_size, trading);
     let mut shadow: Shadow<E::Book> = Shadow::new(t0, &gen.ticks, trading);
+    let mut rshadow = RefShadow::new(t0, &gen.ticks, trading);
     let mut xr = Xoroshiro128StarStar::seed_from_u64(rng.next());
     let n_steps = rng.range(3, cfg.max_steps as u64) as usize;
     cs.sessions += 1;
@@ -171,6 +172,7 @@ pub fn session<E: SimEnv>(cfg: &SessionCfg, cs: &mut EnvCensus, out: &mut Sessio
             trading = !trading;
             env.set_trading(trading);
             shadow.set_trading(trading);
+            rshadow.set_trading(trading);
             cs.toggles += 1;
             if !trading {
                 ever_disabled = true;
@@ -315,6 +317,7 @@ pub fn session<E: SimEnv>(cfg: &SessionCfg, cs: &mut EnvCensus, out: &mut Sessio
             };
             if let Ins::New { asset, bid, vol, trader, price } = &ins {
                 let sid = shadow.books[*asset].create(*bid, *vol, *trader, *price);
+                let _ = rshadow.books[*asset].create(*bid, *vol, *trader, *price);
                 match (&r, &sid) {
                     (Some(Ok((ra, rid))), Ok(sid)) => {
                         if on(E_ASSET) || on(E_STEP) || on(E_INVIS) {
@@ -442,7 +445,7 @@ pub fn session<E: SimEnv>(cfg: &SessionCfg, cs: &mut EnvCensus, out: &mut Sessio
                     return efail(step, "step", "queue_not_empty_after_step", format!("{} instructions left", p.len()), &batch);
                 }
             }
-            match infer_and_advance(&env, &mut shadow, &batch, &new_ids, start, step_size, &hint, 50_000) {
+            match infer_and_advance(&env, &mut shadow, &mut rshadow, &batch, &new_ids, start, step_size, &hint, 400_000) {
                 Infer::Consistent { by_hint, candidates_tried, order } => {
                     if by_hint {
                         cs.schedules_by_hint += 1;
